@@ -3,8 +3,11 @@ package cache
 // White-box constructors for the /verif harness (overlaid into package cache at build time; never committed).
 
 import (
+	"fmt"
 	"time"
+	"unsafe"
 
+	"github.com/fufuok/cache/internal/vshim"
 	"github.com/fufuok/cache/internal/xsync"
 )
 
@@ -28,3 +31,199 @@ func VerifNewMapOfWithHasher[K comparable, V any](h func(K, uint64) uint64) MapO
 
 // VerifDefaultHasher exposes the default hasher for K.
 func VerifDefaultHasher[K comparable]() func(K, uint64) uint64 { return xsync.VerifDefaultHasher[K]() }
+
+// ---- M5-granularity tracing: every call on the underlying map is ONE scheduling step ---------------------
+
+// tracedMap wraps the `items` map of a cache: a scheduling point before every call, the call itself (including
+// the closure the cache passes to Compute, which runs under the bucket lock) as one atomic step, and an event
+// describing it afterwards.
+type tracedMap struct {
+	inner Map
+	ev    func(string)
+}
+
+func itemStr(v interface{}) string {
+	if i, ok := v.(item); ok {
+		if i.v == nil {
+			return fmt.Sprintf("nil@%d", i.e)
+		}
+		return fmt.Sprintf("%v@%d", i.v, i.e)
+	}
+	return "?"
+}
+
+func (t tracedMap) Load(k string) (v interface{}, ok bool) {
+	vshim.Park("items")
+	vshim.Atomic(func() { v, ok = t.inner.Load(k) })
+	t.ev("items.Load " + k)
+	return
+}
+func (t tracedMap) Store(k string, v interface{}) {
+	vshim.Park("items")
+	vshim.Atomic(func() { t.inner.Store(k, v) })
+	t.ev("items.Store " + k)
+}
+func (t tracedMap) LoadOrStore(k string, v interface{}) (a interface{}, l bool) {
+	vshim.Park("items")
+	vshim.Atomic(func() { a, l = t.inner.LoadOrStore(k, v) })
+	t.ev("items.LoadOrStore " + k)
+	return
+}
+func (t tracedMap) LoadAndStore(k string, v interface{}) (a interface{}, l bool) {
+	vshim.Park("items")
+	vshim.Atomic(func() { a, l = t.inner.LoadAndStore(k, v) })
+	t.ev("items.LoadAndStore " + k)
+	return
+}
+func (t tracedMap) LoadOrCompute(k string, f func() interface{}) (a interface{}, l bool) {
+	vshim.Park("items")
+	vshim.Atomic(func() { a, l = t.inner.LoadOrCompute(k, f) })
+	t.ev("items.LoadOrCompute " + k)
+	return
+}
+func (t tracedMap) Compute(k string, f func(interface{}, bool) (interface{}, bool)) (a interface{}, ok bool) {
+	vshim.Park("items")
+	vshim.Atomic(func() { a, ok = t.inner.Compute(k, f) })
+	t.ev("items.Compute " + k)
+	return
+}
+func (t tracedMap) LoadAndDelete(k string) (v interface{}, l bool) {
+	vshim.Park("items")
+	vshim.Atomic(func() { v, l = t.inner.LoadAndDelete(k) })
+	t.ev("items.LoadAndDelete " + k)
+	return
+}
+func (t tracedMap) Delete(k string) {
+	vshim.Park("items")
+	vshim.Atomic(func() { t.inner.Delete(k) })
+	t.ev("items.Delete " + k)
+}
+func (t tracedMap) Range(f func(string, interface{}) bool) {
+	vshim.Park("items")
+	vshim.Atomic(func() {
+		t.inner.Range(func(k string, v interface{}) bool {
+			var r bool
+			vshim.Unatomic(func() {
+				vshim.Park("visit")
+				t.ev("items.RangeVisit " + k + " " + itemStr(v))
+				r = f(k, v)
+			})
+			return r
+		})
+	})
+	t.ev("items.RangeEnd")
+}
+func (t tracedMap) Clear() {
+	vshim.Park("items")
+	vshim.Atomic(func() { t.inner.Clear() })
+	t.ev("items.Clear")
+}
+func (t tracedMap) Size() (n int) {
+	vshim.Park("items")
+	vshim.Atomic(func() { n = t.inner.Size() })
+	t.ev("items.Size")
+	return
+}
+
+// VerifNewCacheTraced: like VerifNewCacheSmall, with the items map wrapped; returns the addresses of the two
+// settings for trace classification.
+func VerifNewCacheTraced(n int, dflt time.Duration, ec EvictedCallback, ev func(string)) (Cache, unsafe.Pointer, unsafe.Pointer) {
+	c := newXsyncMap(Config{DefaultExpiration: dflt, CleanupInterval: 0, EvictedCallback: ec}).(*xsyncMapWrapper)
+	c.items.(*xsync.Map).VerifShrinkTo(n)
+	c.items = tracedMap{inner: c.items, ev: ev}
+	return c, unsafe.Pointer(&c.defaultExpiration), unsafe.Pointer(&c.evictedCallback)
+}
+
+type tracedMapOf[K comparable, V any] struct {
+	inner MapOf[K, V]
+	ev    func(string)
+	key   func(K) string
+	item  func(V) string
+}
+
+func (t tracedMapOf[K, V]) Load(k K) (v V, ok bool) {
+	vshim.Park("items")
+	vshim.Atomic(func() { v, ok = t.inner.Load(k) })
+	t.ev("items.Load " + t.key(k))
+	return
+}
+func (t tracedMapOf[K, V]) Store(k K, v V) {
+	vshim.Park("items")
+	vshim.Atomic(func() { t.inner.Store(k, v) })
+	t.ev("items.Store " + t.key(k))
+}
+func (t tracedMapOf[K, V]) LoadOrStore(k K, v V) (a V, l bool) {
+	vshim.Park("items")
+	vshim.Atomic(func() { a, l = t.inner.LoadOrStore(k, v) })
+	t.ev("items.LoadOrStore " + t.key(k))
+	return
+}
+func (t tracedMapOf[K, V]) LoadAndStore(k K, v V) (a V, l bool) {
+	vshim.Park("items")
+	vshim.Atomic(func() { a, l = t.inner.LoadAndStore(k, v) })
+	t.ev("items.LoadAndStore " + t.key(k))
+	return
+}
+func (t tracedMapOf[K, V]) LoadOrCompute(k K, f func() V) (a V, l bool) {
+	vshim.Park("items")
+	vshim.Atomic(func() { a, l = t.inner.LoadOrCompute(k, f) })
+	t.ev("items.LoadOrCompute " + t.key(k))
+	return
+}
+func (t tracedMapOf[K, V]) Compute(k K, f func(V, bool) (V, bool)) (a V, ok bool) {
+	vshim.Park("items")
+	vshim.Atomic(func() { a, ok = t.inner.Compute(k, f) })
+	t.ev("items.Compute " + t.key(k))
+	return
+}
+func (t tracedMapOf[K, V]) LoadAndDelete(k K) (v V, l bool) {
+	vshim.Park("items")
+	vshim.Atomic(func() { v, l = t.inner.LoadAndDelete(k) })
+	t.ev("items.LoadAndDelete " + t.key(k))
+	return
+}
+func (t tracedMapOf[K, V]) Delete(k K) {
+	vshim.Park("items")
+	vshim.Atomic(func() { t.inner.Delete(k) })
+	t.ev("items.Delete " + t.key(k))
+}
+func (t tracedMapOf[K, V]) Range(f func(K, V) bool) {
+	vshim.Park("items")
+	vshim.Atomic(func() {
+		t.inner.Range(func(k K, v V) bool {
+			var r bool
+			vshim.Unatomic(func() {
+				vshim.Park("visit")
+				t.ev("items.RangeVisit " + t.key(k) + " " + t.item(v))
+				r = f(k, v)
+			})
+			return r
+		})
+	})
+	t.ev("items.RangeEnd")
+}
+func (t tracedMapOf[K, V]) Clear() {
+	vshim.Park("items")
+	vshim.Atomic(func() { t.inner.Clear() })
+	t.ev("items.Clear")
+}
+func (t tracedMapOf[K, V]) Size() (n int) {
+	vshim.Park("items")
+	vshim.Atomic(func() { n = t.inner.Size() })
+	t.ev("items.Size")
+	return
+}
+
+func VerifNewCacheOfTraced(n int, dflt time.Duration, ec EvictedCallbackOf[string, interface{}], ev func(string)) (CacheOf[string, interface{}], unsafe.Pointer, unsafe.Pointer) {
+	c := newXsyncMapOf[string, interface{}](ConfigOf[string, interface{}]{DefaultExpiration: dflt, CleanupInterval: 0, EvictedCallback: ec}).(*xsyncMapOfWrapper[string, interface{}])
+	c.items.(*xsync.MapOf[string, itemOf[interface{}]]).VerifShrinkTo(n)
+	c.items = tracedMapOf[string, itemOf[interface{}]]{inner: c.items, ev: ev,
+		key: func(k string) string { return k },
+		item: func(i itemOf[interface{}]) string {
+			if i.v == nil {
+				return fmt.Sprintf("nil@%d", i.e)
+			}
+			return fmt.Sprintf("%v@%d", i.v, i.e)
+		}}
+	return c, unsafe.Pointer(&c.defaultExpiration), unsafe.Pointer(&c.evictedCallback)
+}
